@@ -455,7 +455,18 @@ impl Runner {
                 self.set_tree(&nodes);
             }
             "backup" => {
-                self.do_backup(st, plan_of(st), None);
+                if let Some(k) = st.get("crash_from_end").and_then(|x| x.as_u64()) {
+                    // a kill k storage verbs before the end of the run: learn its length first
+                    self.do_save();
+                    let verbs = self.do_backup(st, Plan::default(), None);
+                    self.do_reset();
+                    self.do_unsave();
+                    let mut plan = plan_of(st);
+                    plan.crash_at = Some(verbs.len().saturating_sub(k as usize));
+                    self.do_backup(st, plan, None);
+                } else {
+                    self.do_backup(st, plan_of(st), None);
+                }
             }
             "delete" => {
                 self.do_delete(st, plan_of(st), None);
